@@ -507,8 +507,17 @@ def require_outcomes(ctx, stream, cases, required, sep="/"):
                       {"theorem_or_correspondence": "correspondence stream " + stream}, found_input=False)
 
 
-def report_disagreements(ctx, name, failing_cases, model, found_keys):
-    """model/implementation disagreement with no direct property failure found by the monitors"""
+def report_disagreements(ctx, name, failing_cases, model, found_keys, spec_theorem=None):
+    """model/implementation disagreement with no direct property failure found by the monitors.  When the model function
+    is the property's own rule (spec_theorem names the kernel-checked statement that says so), the case on which the
+    implementation returns something else IS an input on which the property fails, and it is reported as such."""
+    if spec_theorem:
+        for c in failing_cases[:5]:
+            ctx.violation("spec:%s" % name,
+                          "the implementation returns something else than %s, which %s proves to be exactly the rule the property states, on this input" % (model, spec_theorem),
+                          {"input": c.get("desc"), "expected": "the value of " + model + " (see coq_case)", "observed": "the last component of coq_case", "coq_case": c.get("coq")[:2000],
+                           "theorem_or_correspondence": spec_theorem})
+        return
     for c in failing_cases[:5]:
         ctx.violation("corr:%s" % name,
                       "model %s and the implementation disagree (stream %s); no direct failure of the property found on this case" % (model, name),
